@@ -7,7 +7,9 @@ use crate::rng::Rng;
 use crate::run::{Obs, Prop, RunCfg, Verdict, Worker};
 
 const WS: &[&str] = &[" ", " ", " ", "\t", "\u{a0}", "\u{3000}", "  ", "    ", "\t\t", "\u{2003}", "\u{b}", "\u{c}", "\u{85}", "\u{2002}", "\u{2009}", "\u{200a}", "\u{2000}", "\u{1680}", "\u{205f}", "\u{202f}", " \t", "\t "];
-const WORDS: &[&str] = &["foo", "bar baz", "x", "é", "你好", "- item", "a  b", "end \t", "#", "fn main() {", "}"];
+const WORDS: &[&str] = &["foo", "bar baz", "x", "é", "你好", "- item", "a  b", "end \t", "#", "fn main() {", "}",
+    // invisible characters that are NOT whitespace: a line made of them is not blank
+    "\u{1b}", "\0", "\u{7}", "\u{1c}", "\u{1f}", "\u{7f}", "\u{200b}", "\u{feff}", "\u{180e}", "\u{2060}", "\u{ad}", "\u{1b}[0m"];
 
 fn gen_ws(r: &mut Rng, max: usize) -> String {
     let mut s = String::new();
